@@ -54,7 +54,9 @@ def _apply_all(op, D, rng, what, transposes=True):
     import scipy.sparse.linalg
     assert tuple(op.shape) == D.shape, '%s: shape %r, dense definition has %r' % (what, tuple(op.shape), D.shape)
     for nm, x in _args(rng, D.shape[1]):
+        x_before = np.array(x, copy=True)
         _close(op.dot(x), D.dot(x), '%s applied to a %s' % (what, nm))
+        assert np.array_equal(x, x_before), '%s applied to a %s changed its argument' % (what, nm)
         if nm != 'column':
             _close(op @ x, D @ x, '%s @ %s' % (what, nm))
     if transposes:
@@ -230,6 +232,18 @@ def chk_solver(c):
     elif c['kind'] == 'spd':
         B = A @ A.T + n * np.eye(n)
         kw = {'spd': True}
+    elif c['kind'] == 'saddle':
+        # symmetric indefinite and well conditioned, but with tiny (nonzero) diagonal entries: [[eps K, C^T], [C, -eps I]] -- a factorisation
+        # that keeps its pivots on the diagonal loses all accuracy here
+        m = max(1, n // 2)
+        n = 2 * m
+        K = _mat(rng, m, m)
+        K = K @ K.T + m * np.eye(m)
+        C = _mat(rng, m, m)
+        C = C + (np.abs(C).sum() + 1.0) * np.eye(m)
+        eps = 1e-13
+        B = np.block([[eps * K, C.T], [C, -eps * np.eye(m)]])
+        kw = {'symmetric': True}
     else:
         # symmetric, not positive definite: diagonally dominant with diagonal entries of alternating sign (indefinite, invertible)
         B = (A + A.T) / 2.0
@@ -384,7 +398,7 @@ def generate(tier, rng):
         # n >= 2: DiagonalOperator squeezes its argument and then asserts that it is a vector (a length-1 diagonal is rejected explicitly)
         yield 'simple', {'seed': rep, 'n': 2 + rep % 5, 'm': 1 + (rep * 2) % 4}
         yield 'subspace', {'seed': rep, 'n': 3 + rep % 4, 'sizes': [1 + (rep + k) % 3 for k in range(1 + rep % 3)], 'kinds': [['dense', 'sparse'][(rep + k) % 2] for k in range(1 + rep % 3)]}
-        for kind in ('general', 'spd', 'symmetric'):
+        for kind in ('general', 'spd', 'symmetric', 'saddle'):
             for sp in (False, True):
                 yield 'solver', {'seed': rep, 'n': 2 + rep % 5, 'kind': kind, 'sparse': sp}
                 if not sp:
